@@ -84,6 +84,13 @@ fn main() {
         }
         if bad > 4 { break; }
     }
+    // short-term key = OpaqueString(password), UTF-8: spaces are kept (non-ASCII spaces become U+0020), nothing is trimmed
+    for (pw, want) in [(" secret ", &b" secret "[..]), ("secret\u{3000}", &b"secret "[..]), ("a  b", &b"a  b"[..]), ("caf\u{e9}", "caf\u{e9}".as_bytes()), ("cafe\u{301}", "caf\u{e9}".as_bytes())] {
+        match HMACKey::new_short_term(pw) {
+            Ok(k) => if k.as_bytes() != want { println!("WITNESS: short-term key for {:?} is {:?}, expected the OpaqueString-processed password {:?}", pw, k.as_bytes(), want); bad += 1; },
+            Err(e) => { println!("WITNESS: short-term key for {:?} refused: {:?}", pw, e); bad += 1; }
+        }
+    }
     // long-term keys
     for alg in [AlgorithmId::MD5, AlgorithmId::SHA256] {
         let a = Algorithm::from(alg);
